@@ -453,7 +453,8 @@ class MRunner:
             for op in self.prog["ops"]:
                 if self.do(op) == "abort":
                     break
-            line = sx([Sym("hist"), [True, True, True], True, st, self.ops_sx])   # Model repo: the C06 repairs applied
+            # Model.repo: the C06 repairs (rebind, metadata, memmap_ under lock) and the C05 lock-graph repairs (D7, D55) applied
+            line = sx([Sym("hist"), [True, True, True, True, True], True, st, self.ops_sx])
         finally:
             self.W.close()
         return line, self.impl
